@@ -34,12 +34,19 @@ Tuples(n) == IF n <= 3 THEN [1..n -> ShapesFor(n)]
 Eval1 == {"-", "+", "abs", "sign", "float", "integer", "float_integer_part", "float_fractional_part", "floor", "truncate", "round", "ceiling", "sin", "cos", "atan", "exp", "log", "sqrt", "\\", "max_integer", "foo"}
 Eval2 == {"+", "-", "*", "/", "//", "rem", "mod", "div", "min", "max", "**", "^", ">>", "<<", "/\\", "\\/", "xor", "atan2", "copysign", "log"}
 NumShapes == {"var", "atom", "zero", "int", "negint", "maxint", "minint", "float", "negfloat", "bigfloat", "tinyfloat", "zerofloat", "big_shift", "compound", "list"}
+\* "collect": the all-solutions predicates over two solutions whose free variable / template holds the same value of every shape
+\* (witnesses are compared with one another); "order": the comparing and sorting predicates over every pair of shapes
+CollectOps == {"bagof", "setof", "findall"}
+CollectForms == {"free", "template", "caret"}
+OrderPreds == {"compare", "==", "@<", "sort", "msort", "keysort", "setof"}
 VARIABLES kind, toks, args, done
 vars == <<kind, toks, args, done>>
 Init == \/ kind = "tokens" /\ toks \in UNION { [1..k -> TokenKinds] : k \in 0..NT } /\ args = <<>> /\ done = FALSE
         \/ kind = "shapes" /\ toks = <<>> /\ args \in UNION { Tuples(n) : n \in 0..8 } /\ done = FALSE
         \/ kind = "eval" /\ toks \in { <<f>> : f \in Eval1 } /\ args \in [1..1 -> NumShapes] /\ done = FALSE
         \/ kind = "eval" /\ toks \in { <<f>> : f \in Eval2 } /\ args \in [1..2 -> NumShapes] /\ done = FALSE
+        \/ kind = "collect" /\ toks \in { <<op, form>> : op \in CollectOps, form \in CollectForms } /\ args \in [1..1 -> Shapes] /\ done = FALSE
+        \/ kind = "order" /\ toks \in { <<p>> : p \in OrderPreds } /\ args \in [1..2 -> Shapes] /\ done = FALSE
 Next == ~done /\ done' = TRUE /\ UNCHANGED <<kind, toks, args>>
 Spec == Init /\ [][Next]_vars
 Emit == done => PrintT("CASE " \o ToJson([kind |-> kind, toks |-> toks, args |-> args, allowed |-> Allowed, iso |-> IsoFormals]))
